@@ -213,6 +213,73 @@ theorem symbolic_hom (code : Option (List Char)) :
   · intro n; rw [symbP]
   · intro n; rw [symbP]
 
+/-! ### matrices and tuples: shape and entries -/
+
+/-- **symbolic_matrix_entries** — `SymbolicExpr` of a matrix (`r` rows, `c` columns, entries in
+    row-major order; any shape, square or not) succeeds iff every entry converts, and the result
+    is a matrix of the SAME shape `r × c` with the same number of entries, the `k`-th one being
+    the conversion of the `k`-th entry (with the code in force once a pending block of
+    derivatives is closed). -/
+theorem symbolic_matrix_entries (pend : Option (Bool × (Nat × Nat × Nat))) (outer : Option (List Char))
+    (r c : Nat) (es : List E) (m : E) :
+    symbP pend outer (mat r c es) = .ok m ↔
+      ∃ ss, m = mat r c ss ∧ es.length = ss.length ∧
+        ∀ k (hk : k < es.length) (hk' : k < ss.length),
+          symbP none (closeBlock pend outer) es[k] = .ok ss[k] := by
+  rw [symbP]
+  constructor
+  · intro h
+    cases hs : symbList (closeBlock pend outer) es with
+    | error x => rw [hs] at h; cases h
+    | ok ss =>
+      rw [hs] at h
+      injection h with h
+      exact ⟨ss, h.symm, (symbList_spec _ es ss).mp hs⟩
+  · rintro ⟨ss, rfl, hl, hent⟩
+    rw [(symbList_spec _ es ss).mpr ⟨hl, hent⟩]
+    rfl
+
+/-- … in particular entry `(i, j)` (position `i * c + j` of the row-major list) of
+    `SymbolicExpr(M)` is `SymbolicExpr(M[i, j])`: no transposition, no re-flow of the entries. -/
+theorem symbolic_matrix_entry (r c : Nat) (es ss : List E)
+    (h : symb (mat r c es) = .ok (mat r c ss)) (i j : Nat) (_ : i < r) (_ : j < c)
+    (hk : i * c + j < es.length) (hk' : i * c + j < ss.length) :
+    symb es[i * c + j] = .ok ss[i * c + j] := by
+  obtain ⟨ss', hm, _, hent⟩ := (symbolic_matrix_entries none none r c es _).mp h
+  injection hm with _ _ hss
+  subst hss
+  exact hent _ hk hk'
+
+/-- the shape cannot change: a result of `SymbolicExpr(mat r c …)` is never a matrix of another
+    shape (e.g. the transposed one) -/
+theorem symbolic_matrix_shape (r c r' c' : Nat) (es ss : List E)
+    (h : symb (mat r c es) = .ok (mat r' c' ss)) : r' = r ∧ c' = c ∧ ss.length = es.length := by
+  obtain ⟨ss', hm, hl, _⟩ := (symbolic_matrix_entries none none r c es _).mp h
+  injection hm with hr hc hss
+  subst hss
+  exact ⟨hr, hc, hl.symm⟩
+
+/-- **symbolic_tuple_entries** — the same for tuples / lists (`Tuple` of the conversions, same
+    length, same order). -/
+theorem symbolic_tuple_entries (pend : Option (Bool × (Nat × Nat × Nat))) (outer : Option (List Char))
+    (es : List E) (m : E) :
+    symbP pend outer (tup es) = .ok m ↔
+      ∃ ss, m = tup ss ∧ es.length = ss.length ∧
+        ∀ k (hk : k < es.length) (hk' : k < ss.length),
+          symbP none (closeBlock pend outer) es[k] = .ok ss[k] := by
+  rw [symbP]
+  constructor
+  · intro h
+    cases hs : symbList (closeBlock pend outer) es with
+    | error x => rw [hs] at h; cases h
+    | ok ss =>
+      rw [hs] at h
+      injection h with h
+      exact ⟨ss, h.symm, (symbList_spec _ es ss).mp hs⟩
+  · rintro ⟨ss, rfl, hl, hent⟩
+    rw [(symbList_spec _ es ss).mpr ⟨hl, hent⟩]
+    rfl
+
 /-! ### order bookkeeping -/
 
 /-- **maxOrders_eq_true**, per function — for a kernel in which every derivative chain is
@@ -320,5 +387,10 @@ example : ¬ Hygienic ["u".toList, "u_x".toList] := by
     (by decide)
 example : symb (add [pow (pd .x exF) (pd .y exF), num 2 1])
     = .ok (add [pow (sym "f_x") (sym "f_y"), num 2 1]) := by rfl
+example : symb (mat 1 3 [pd .x exF, pd .y (pd .x exF), exG])
+    = .ok (mat 1 3 [sym "f_x", sym "f_xy", sym "G_1"]) := by rfl
+example : symb (mat 2 3 [pd .x exF, pd .y exF, exF, pd .x exG, pd .y exG, exG])
+    = .ok (mat 2 3 [sym "f_x", sym "f_y", sym "f", sym "G_1_x", sym "G_1_y", sym "G_1"]) := by rfl
+example : symb (tup [pd .x exF, exG]) = .ok (tup [sym "f_x", sym "G_1"]) := by rfl
 
 end Sympde.Atoms
